@@ -62,7 +62,7 @@ Definition single_just (fs:list rxframe) (m:msg) (idx:list nat) : Prop :=
   exists i0 f0,
     idx = [i0] /\ nth_error fs i0 = Some f0 /\
     fpgn f0 = m_pgn m /\ fsrc f0 = m_src m /\ fdst f0 = m_dst m /\ fpri f0 = m_pri m /\
-    m_data m = chunk 0 f0 /\ (0 <= r_len f0 -> m_len m = r_len f0).
+    m_data m = chunk 0 f0 /\ (0 <= r_len f0 -> m_len m = r_len f0) /\ (length (chunk 0 f0) <= MAXLEN)%nat.
 
 Definition justified (c:pgncfg) (fs:list rxframe) (m:msg) (idx:list nat) : Prop :=
   if rx_fast c (m_pgn m) then fast_just fs m idx else single_just fs m idx.
@@ -94,24 +94,39 @@ Definition cold_node_clean_stmt : Prop :=
   forall w mode t0 qmax nsl pc devs rxls cfg, rx_clean (cold_node w mode t0 qmax nsl pc devs rxls cfg).
 
 (* ================= 3. the small statements (on one frame) ================= *)
-(* a fast packet announcing more than 223 bytes never becomes ready: whenever SetN2kCANBufMsg reports a ready non-TP slot its length is
-   at most 223 and at most the number of bytes copied *)
+(* a fast packet announcing more than 223 bytes never becomes ready.  On one frame: no slot ever holds more than 223 bytes, and whenever
+   SetN2kCANBufMsg reports a ready slot for a non-TP frame, its announced length is covered by the bytes copied, hence at most 223 *)
+Definition data_bounded (r:rnode) : Prop := Forall (fun s => (length (s_data s) <= MAXLEN)%nat) (r_slots r).
+Definition is_tp_frame (f:rxframe) : bool := (fpgn f =? c_TP_CM) || (fpgn f =? c_TP_DT).
 Definition overlong_never_delivered_stmt : Prop :=
-  forall r f r1 ev idx, rx_frame r f = (r1, ev, idx) -> 0 <= idx < nslots r1 -> s_tp (get_slot r1 idx) = false ->
-    s_len (get_slot r1 idx) <= 223 /\ s_len (get_slot r1 idx) <= Z.of_nat (length (s_data (get_slot r1 idx))).
+  forall r f r1 ev idx, is_tp_frame f = false -> data_bounded r -> rx_frame r f = (r1, ev, idx) ->
+    data_bounded r1 /\
+    (idx < nslots r1 -> s_len (get_slot r1 idx) <= Z.of_nat (length (s_data (get_slot r1 idx))) /\ s_len (get_slot r1 idx) <= 223).
+(* on histories: no non-TP delivery is longer than 223 bytes, and a first frame announcing more than 223 bytes justifies no delivery *)
+Definition delivered_at_most_223_stmt : Prop :=
+  forall gf r0 ops, gf_ok gf -> rx_clean r0 ->
+    Forall (fun m => m_len m <= 223) (fp_dlv (concat (snd (rrun gf r0 ops)))).
+Definition overlong_first_frame_stmt : Prop :=
+  forall fs m idx i0 f0, fast_just fs m idx -> hd_error idx = Some i0 -> nth_error fs i0 = Some f0 -> fbyte f0 1 <= 223.
 
 (* a frame of a non-fast-packet, non-TP PGN that passes the known-message filter and finds a slot is handed to the application in the same
-   ParseMessages iteration with length = DLC and the DLC valid bytes *)
+   ParseMessages iteration with length = DLC and the DLC valid bytes (rx_iter = one iteration, tied to rx_loop by rx_loop_iter_stmt below) *)
+Definition rx_iter (gf:rnode -> slot -> rnode * list event) (r0:rnode) (f:rxframe) : rnode * list event :=
+  let '(r1, ev1, idx) := rx_frame r0 f in
+  if idx <? nslots r1 then
+    let r1 := chk_slot r1 idx in
+    let s := get_slot r1 idx in
+    let '(r2, ev2) := handle_system gf r1 s in
+    (set_slot r2 idx (free_slot (get_slot r2 idx)), ev1 ++ ev2 ++ [EvDeliver (slot_msg s)])
+  else (r1, ev1).
 Definition single_frame_stmt : Prop :=
-  forall gf r f rest k,
-    r_q r = f :: rest -> 0 <= r_len f <= 8 -> length (r_buf f) = 8%nat ->
-    fpgn f <> c_TP_CM -> fpgn f <> c_TP_DT -> rx_fast (n_pgn (rn r)) (fpgn f) = false ->
+  forall gf r f, gf_ok gf ->
+    0 <= r_len f <= 8 -> length (r_buf f) = 8%nat ->
+    is_tp_frame f = false -> rx_fast (n_pgn (rn r)) (fpgn f) = false ->
     (rx_known (n_pgn (rn r)) (fpgn f) || negb (c_only_known (r_cfg r))) = true ->
-    snd (find_free_slot (with_rxq r rest) (fpgn f) (fsrc f) (fdst f) false) < nslots r ->
-    exists ev', snd (rx_loop gf (S k) r) =
-      EvDeliver {| m_pri := fpri f; m_pgn := fpgn f; m_src := fsrc f; m_dst := fdst f; m_data := firstn (Z.to_nat (r_len f)) (r_buf f); m_tp := false |} :: ev'
-      \/ exists e1, snd (rx_loop gf (S k) r) = e1 ++ EvDeliver {| m_pri := fpri f; m_pgn := fpgn f; m_src := fsrc f; m_dst := fdst f;
-                                                               m_data := firstn (Z.to_nat (r_len f)) (r_buf f); m_tp := false |} :: ev' /\ dlv_of e1 = [].
+    snd (find_free_slot r (fpgn f) (fsrc f) (fdst f) false) < nslots r ->
+    dlv_of (snd (rx_iter gf r f)) =
+      [ {| m_pri := fpri f; m_pgn := fpgn f; m_src := fsrc f; m_dst := fdst f; m_data := firstn (Z.to_nat (r_len f)) (r_buf f); m_tp := false |} ].
 
 (* the key under which a first frame is stored *)
 Definition key_match (s:slot) (pgn src dst:Z) : bool := (s_pgn s =? pgn) && (s_src s =? src) && (s_dst s =? dst) && negb (s_tp s).
@@ -121,14 +136,14 @@ Definition key_match (s:slot) (pgn src dst:Z) : bool := (s_pgn s =? pgn) && (s_s
 Definition supersede_stmt : Prop :=
   forall r f r1 ev idx i,
     rx_frame r f = (r1, ev, idx) ->
-    fpgn f <> c_TP_CM -> fpgn f <> c_TP_DT -> rx_fast (n_pgn (rn r)) (fpgn f) = true -> Z.land (fbyte f 0) 31 = 0 ->
+    is_tp_frame f = false -> rx_fast (n_pgn (rn r)) (fpgn f) = true -> Z.land (fbyte f 0) 31 = 0 ->
     (rx_known (n_pgn (rn r)) (fpgn f) || negb (c_only_known (r_cfg r))) = true ->
     find_free_slot r (fpgn f) (fsrc f) (fdst f) false = (r_slots r, i) -> 0 <= i < nslots r ->
     key_match (get_slot r i) (fpgn f) (fsrc f) (fdst f) = true ->
     let s := get_slot r1 i in
     s_data s = firstn MAXLEN (chunk 2 f) /\ s_len s = fbyte f 1 /\ s_last s = fbyte f 0 /\ s_pri s = fpri f /\
     key_match s (fpgn f) (fsrc f) (fdst f) = true /\ s_free s = false /\
-    (forall j, j <> i -> get_slot r1 j = get_slot r j).
+    (forall j, 0 <= j -> j <> i -> get_slot r1 j = get_slot r j).
 
 (* a continuation frame whose sequence byte is not LastFrame+1 frees the slot it belongs to: the slot is clear afterwards (PGN 0, no
    length), nothing is reported ready, and no other slot changes; by rx_no_corruption nothing of that message can be delivered unless a
@@ -136,24 +151,15 @@ Definition supersede_stmt : Prop :=
 Definition out_of_sequence_discards_stmt : Prop :=
   forall r f r1 ev idx i,
     rx_frame r f = (r1, ev, idx) ->
-    fpgn f <> c_TP_CM -> fpgn f <> c_TP_DT -> rx_fast (n_pgn (rn r)) (fpgn f) = true -> Z.land (fbyte f 0) 31 <> 0 ->
+    is_tp_frame f = false -> rx_fast (n_pgn (rn r)) (fpgn f) = true -> Z.land (fbyte f 0) 31 <> 0 ->
     (rx_known (n_pgn (rn r)) (fpgn f) || negb (c_only_known (r_cfg r))) = true ->
     i = find_cont (r_slots r) (fpgn f) (fsrc f) (fdst f) 0 -> i < nslots r ->
     s_last (get_slot r i) + 1 <> fbyte f 0 ->
     idx = nslots r /\ ev = [] /\ s_free (get_slot r1 i) = true /\ s_pgn (get_slot r1 i) = 0 /\ s_len (get_slot r1 i) = 0 /\
-    (forall j, j <> i -> get_slot r1 j = get_slot r j) /\
+    (forall j, 0 <= j -> j <> i -> get_slot r1 j = get_slot r j) /\
     find_cont (r_slots r1) (fpgn f) (fsrc f) (fdst f) 0 <> i.
 
 (* ================= 4. completeness ================= *)
-(* one iteration of the ParseMessages loop on one frame (rx_loop_iter in the proofs ties it to rx_loop) *)
-Definition rx_iter (gf:rnode -> slot -> rnode * list event) (r0:rnode) (f:rxframe) : rnode * list event :=
-  let '(r1, ev1, idx) := rx_frame r0 f in
-  if idx <? nslots r1 then
-    let r1 := chk_slot r1 idx in
-    let s := get_slot r1 idx in
-    let '(r2, ev2) := handle_system gf r1 s in
-    (set_slot r2 idx (free_slot (get_slot r2 idx)), ev1 ++ ev2 ++ [EvDeliver (slot_msg s)])
-  else (r1, ev1).
 Definition rx_loop_iter_stmt : Prop :=
   forall gf k r, rx_loop gf (S k) r =
     match r_q r with
@@ -163,7 +169,6 @@ Definition rx_loop_iter_stmt : Prop :=
 
 (* the frames of one fast-packet message as they arrive: same identifier, sequence bytes b0, b0+1, ... *)
 Definition same_key (f g:rxframe) : Prop := fpgn g = fpgn f /\ fsrc g = fsrc f /\ fdst g = fdst f.
-Definition is_tp_frame (f:rxframe) : bool := (fpgn f =? c_TP_CM) || (fpgn f =? c_TP_DT).
 (* a frame that belongs to the reassembly of key (non-TP frame with the PGN, source and destination of f0) *)
 Definition touches_key (f0 g:rxframe) : Prop := is_tp_frame g = false /\ same_key f0 g.
 
